@@ -19,6 +19,15 @@ def spell(name, rnd):
     return rnd.choice([name, name.upper(), name.title()])
 
 
+ASCII_COMPATIBLE = ('ascii', 'latin-1', 'utf-8')
+
+
+class Tag(str):
+    """text all the same: a str subclass whose str() is not its value (as an enum member that is also a str)"""
+    def __str__(self):
+        return 'Tag.' + str.__str__(self)
+
+
 def outcome(fn, *a, **kw):
     try:
         r = fn(*a, **kw)
@@ -65,6 +74,7 @@ def run(ctx):
     rnd = random.Random(ctx.seed)
     counts = {}
     n = 0
+    longs = [0]
 
     def report(kind, call_text, got, ref, c):
         ctx.violation({'kind': kind, 'want': ref['k'] if ref['k'] != 'err' else ref['e'],
@@ -104,6 +114,21 @@ def run(ctx):
             got = outcome(encodeutils.safe_encode, payload, incoming=inc, encoding=enc)
             if not matches(got, ref['encode'], payload):
                 report('safe_encode-bytes', 'safe_encode(%r, incoming=%r, encoding=%r)' % (payload, inc, enc), got, ref['encode'], c)
+            if n % 7 == 0 and payload and c['incoming'] in ASCII_COMPATIBLE and c['enc'] in ASCII_COMPATIBLE:
+                # the same bytes at the end of a long payload (5000 ASCII bytes in front: every ASCII-compatible codec
+                # maps them to themselves, so the answers are the same with 5000 'a' in front)
+                long_payload = b'a' * 5000 + payload
+
+                def longer(r):
+                    return dict(r, v=[97] * 5000 + r['v']) if r['k'] in ('bytes', 'text') else r
+                got = outcome(encodeutils.safe_decode, long_payload, incoming=inc)
+                if not matches(got, longer(ref['decode']), long_payload):
+                    report('safe_decode-long', 'safe_decode(5000 x a + %r, incoming=%r)' % (payload, inc), (got[0], repr(got[1])[-80:]), ref['decode'], c)
+                got = outcome(encodeutils.safe_encode, long_payload, incoming=inc, encoding=enc)
+                if not matches(got, longer(ref['encode']), long_payload):
+                    report('safe_encode-bytes-long', 'safe_encode(5000 x a + %r, incoming=%r, encoding=%r)' % (payload, inc, enc),
+                           (got[0], repr(got[1])[-80:]), ref['encode'], c)
+                longs[0] += 1
         elif k == 'transpol':
             payload = bytes(ref['payload'])
             enc = spell(c['enc'], rnd)
@@ -124,7 +149,7 @@ def run(ctx):
         else:
             # every kind of "other" argument, also those that resemble bytes (bytearray, memoryview) or text
             others = [None, 5, ['A'], 1.5, bytearray(b'A'), memoryview(b'A'), ('A',), {'A': 1}, object()]
-            for arg in ({'str': ['A'], 'bytes': [b'A'], 'other': others}[c['kind']]):
+            for arg in ({'str': ['A', Tag('A')], 'bytes': [b'A'], 'other': others}[c['kind']]):
                 fn = {'safe_decode': lambda: outcome(encodeutils.safe_decode, arg, incoming='utf-8'),
                       'safe_encode': lambda: outcome(encodeutils.safe_encode, arg, incoming='utf-8', encoding='utf-8'),
                       'to_utf8': lambda: outcome(encodeutils.to_utf8, arg)}[c['fn']]
@@ -137,7 +162,7 @@ def run(ctx):
     ctx.cov['distinct_nontrivial'] += len(res.records)
     if len(counts) < 5:
         raise MachineryError('vacuity: %s' % counts)
-    ctx.stage('codec-replay', cases=counts, calls=n)
+    ctx.stage('codec-replay', cases=counts, calls=n, long_payloads=longs[0])
     ctx.sample({'case': res.records[len(res.records) // 2]})
     # the identity clauses hold whatever the process's own default encoding is (safe_encode / safe_decode take their
     # default `incoming` from sys.stdin.encoding; the clauses below name none)
